@@ -32,7 +32,7 @@ def cases(seed, tier):
             c["n_total"] = 32
             c["extreme"] = True
         if r.random() < 0.5:
-            c["cfg"]["volume_variation"] = r.choice([0.02, 0.05, 0.1, 0.25, 1.0])
+            c["cfg"]["volume_variation"] = r.choice([0.05, 0.1, 0.25, 1.0])
         out.append(c)
     return out
 
